@@ -20,6 +20,7 @@ type accepted struct {
 	from    int  // 1: received from peer 1 (which therefore has it), 0: submitted locally
 	okDest   bool // transmitted successfully to the destination node (the node may release it)
 	okBefore bool // okDest at the end of the previous event
+	due      [2]bool // an event obliged epidemic routing to offer the bundle to peer i (peer connected, destination not)
 }
 
 // node is a real Core plus the scripted peers around it.
@@ -201,6 +202,10 @@ func history(check05, check13, check18 bool) {
 		n.maxBundles = 3
 	}
 	n.noteSends(0)
+	for _, a := range n.acc {
+		// the prefix's submissions happened with these peers connected
+		a.due[0], a.due[1] = n.up[0], n.up[1]
+	}
 	for step := 0; step < depth; step++ {
 		before := len(n.log)
 		for i := 0; i < npeers; i++ {
@@ -222,7 +227,9 @@ func history(check05, check13, check18 bool) {
 				n.lastEv = -1
 				break
 			}
-			n.submit(n.lastEv, &submitted)
+			if !n.submit(n.lastEv, &submitted) {
+				n.lastEv = -1 // the history's bundles are used up: nothing happens
+			}
 		case 1, 2:
 			if n.up[n.lastEv-1] {
 				n.lastEv = -1 // already connected: nothing happens
@@ -261,13 +268,15 @@ func history(check05, check13, check18 bool) {
 			n.checkBudget(before, 2)
 		}
 	}
-	// finally: every peer that is up and did not get a bundle successfully must have been offered it (epidemic) -
-	// unless the destination node itself is connected: Core.forward then bypasses the routing algorithm (direct
-	// delivery), also while the transmissions to the destination fail; the check does not demand replication then
-	if check05 && n.algo == "epidemic" && !n.up[2] {
+	// finally: a bundle was offered to every peer that was connected at an event that makes epidemic routing dispatch
+	// it (its acceptance, a peer appearing, a retry or cleaning tick) while the destination node itself was not
+	// connected: Core.forward bypasses the routing algorithm while the destination is a peer (direct delivery), also
+	// while the transmissions to it fail, and a peer that appeared during that time is offered the bundle only at the
+	// next such event - the check does not demand replication before it
+	if check05 && n.algo == "epidemic" {
 		for _, a := range n.acc {
 			for i := 0; i < 2; i++ {
-				if !n.up[i] || a.from == i+1 || a.okDest {
+				if !a.due[i] || a.from == i+1 {
 					continue
 				}
 				offered := false
@@ -285,9 +294,9 @@ func history(check05, check13, check18 bool) {
 
 // submit: a bundle for dtn://far/inbox is accepted: kind 0 submitted by an application, 7 the same without a clock
 // (zero creation time and a bundle-age block), 8 received from peer 1. At most two bundles per history (three after prefix 3).
-func (n *node) submit(kind int, submitted *int) {
+func (n *node) submit(kind int, submitted *int) bool {
 	if *submitted >= 2 && *submitted >= n.maxBundles {
-		return
+		return false
 	}
 	payload := []byte{byte('A' + *submitted)}
 	var b bpv7.Bundle
@@ -315,6 +324,7 @@ func (n *node) submit(kind int, submitted *int) {
 	}
 	n.acc = append(n.acc, a)
 	*submitted++
+	return true
 }
 
 // checkOffers: what had to be transmitted during the last event.
@@ -340,6 +350,13 @@ func (n *node) checkOffers(before int) {
 		// epidemic: on a retry tick and whenever a peer appears, every connected peer that does not have a stored
 		// bundle yet (no successful transmission to it) is offered the bundle - unless the destination itself is
 		// connected (direct delivery bypasses the algorithm)
+		if n.algo == "epidemic" && !n.up[2] && (ev == 4 || ev == 1 || ev == 2 || ev == 6 || ((ev == 0 || ev == 7 || ev == 8) && a == n.acc[len(n.acc)-1])) {
+			for i := 0; i < 2; i++ {
+				if n.up[i] {
+					a.due[i] = true
+				}
+			}
+		}
 		if (n.algo == "epidemic" || n.algo == "sensor-mule") && !n.up[2] && (ev == 4 || ev == 1 || ev == 2 || ev == 6) {
 			for i := 0; i < 2; i++ {
 				if !n.up[i] || n.delivered(a, i, before) || a.from == i+1 {
